@@ -497,6 +497,7 @@ func (x *runner) runC03() {
 			}
 		}
 	}
+	x.runEnvelopes()
 }
 
 // ---------------------------------------------------------------- C04
